@@ -12,7 +12,7 @@ import sys
 import sched as S
 import wire
 import world as WORLD
-from common import MODEL_EXE, hx
+from common import hx, model_exe
 from harness import PROTO, V2
 from world import World, name_locks, pc, raw
 
@@ -88,12 +88,12 @@ class LogDeque(collections.deque):
 
 def replay_model(events):
     """pipe the event lines through the Lean models; return the first mismatch (or None)"""
-    if not os.path.exists(MODEL_EXE):
+    if not os.path.exists(model_exe("threads")):
         return "model executable missing"
     lines = [e[0] for e in events]
-    p = subprocess.run([MODEL_EXE, "threads"], input="\n".join(lines) + "\n", capture_output=True, text=True, timeout=120)
+    p = subprocess.run([model_exe("threads"), "threads"], input="\n".join(lines) + "\n", capture_output=True, text=True, timeout=120)
     if p.returncode != 0:
-        return "pahomodel threads failed: " + p.stderr[:200]
+        return "pm_threads threads failed: " + p.stderr[:200]
     out = p.stdout.split("\n")
     for i, (line, real) in enumerate(events):
         mo = out[i] if i < len(out) else "<missing>"
